@@ -388,6 +388,50 @@ func c17Fallback(c *Ctx, a *accInfo) {
 	if !found {
 		r.Violation("C17-K2", name+": decode error is tested", c.P.ipos(a.decCall), "the error of "+shortName(a.decCall.Call.StaticCallee())+" is not branched on: malformed values are returned as decoded")
 	}
+	// K11 the converse: a value that is present and well-formed is what the accessor reports. Every return that can be
+	// reached without taking the absent edge or the decode-error edge yields a value derived from the decode target —
+	// no further test (a range check, a class of addresses, a flag) may turn a well-formed value into the default.
+	if target != nil {
+		var via []Edge
+		for _, b := range f.Blocks {
+			iff := ifOf(b)
+			if iff == nil {
+				continue
+			}
+			if nilE, _, ok := nilEdgesOf(iff, func(v ssa.Value) bool { return v == ssa.Value(a.getCall) }); ok {
+				via = append(via, nilE)
+			}
+			if _, nn, ok := nilEdgesOf(iff, func(v ssa.Value) bool { return v == errv }); ok {
+				via = append(via, nn)
+			}
+			// len(v) == 0 style absent tests on the looked-up bytes
+			if bo, ok := iff.Cond.(*ssa.BinOp); ok && (bo.Op == token.EQL || bo.Op == token.NEQ) {
+				if lenOperand(bo.X) == ssa.Value(a.getCall) || lenOperand(bo.Y) == ssa.Value(a.getCall) {
+					if k, isK := intConst(bo.Y); isK && k == 0 {
+						e := Edge{b, b.Succs[0]}
+						if bo.Op == token.NEQ {
+							e = Edge{b, b.Succs[1]}
+						}
+						via = append(via, e)
+					}
+				}
+			}
+		}
+		for _, ret := range returnsOf(f) {
+			if len(via) > 0 && mustPassEdges(f, ret.Block(), via...) {
+				continue
+			}
+			if len(ret.Results) == 0 || isErrorType(ret.Results[0].Type()) {
+				continue
+			}
+			if fallbackValueOK(ret.Results[0], target) {
+				r.Violation("C17-K11", name+": a present, well-formed value is reported (not the default)", c.P.ipos(ret),
+					"this return is reachable although the option is present and decoded without error, and what it yields ("+sx.Of(ret.Results[0]).String()+") does not derive from the decoded value: some well-formed values are reported as absent")
+			} else {
+				r.OK("C17-K11", name+": a present, well-formed value is reported (not the default)", c.P.ipos(ret), "success-path return derives from the decode target", "")
+			}
+		}
+	}
 }
 
 // fallbackValueOK: the value does not derive from the decode target (by SSA reachability through operands)
